@@ -10,6 +10,7 @@ var Registry = map[string]func(*an.Ctx){}
 func register(id string, f func(*an.Ctx)) {
 	Registry[id] = func(c *an.Ctx) {
 		groupProg = c.P
+		bindStatusAccessors(c.P)
 		f(c)
 	}
 }
